@@ -7,7 +7,7 @@ brute-force oracle in Python (exact fractions) is evaluated on the implementatio
 import warnings
 from fractions import Fraction
 import numpy as np
-from common import bits, lean_run, parse_rat, quiet, f2b
+from common import bits, lean_run, parse_rat, parse_ok_floats, quiet, f2b
 import zoo
 
 TOL = Fraction(1, 10 ** 12)
@@ -100,6 +100,7 @@ def run(R, tier, seed, driver_ok):
               'case = (distances, labels, strategy, parameter); non-trivial = both labels present and ≥2 distinct predictions vectors')
     R.assumptions = ['roc_curve / precision_recall_curve are external; only the criterion value attained by threshold_ is compared (never the threshold itself)']
     lines, meta = [], []
+    clines, cmeta = [], []
     ests = []
     for name in zoo.PAIRS:
         for _ in range(1 if tier == 'quick' else 3):
@@ -156,6 +157,11 @@ def run(R, tier, seed, driver_ok):
                 p = 0.0 if param is None else param
                 lines.append(f"calib {strategy} {n} {bits(d)} {' '.join(map(str, yv))} {f2b(p)} {f2b(thr_eff)}")
                 meta.append((best, got, ok, case))
+                if strategy == 'accuracy':
+                    # implementation-layer model (sort / cumulative counts / realisable mask / first arg-max):
+                    # the stored threshold must be bit-identical to the model's
+                    clines.append(f"calib_code {n} {bits(d)} {' '.join(map(str, yv))}")
+                    cmeta.append((thr, int(got * n), case))
     R.extra['infinite_thresholds_seen'] = ninf
     # ---- through fit(calibration_params=...) on the training pairs
     for name in zoo.PAIRS:
@@ -230,11 +236,22 @@ def run(R, tier, seed, driver_ok):
             m_opt, m_got, m_feas = parse_rat(tk[1]), parse_rat(tk[2]), tk[3] == '1'
             if m_opt != best or m_got != got or m_feas != ok:
                 R.broken('correspondence:C16:calib', f"model optimum {m_opt} / attained {m_got} / feasible {m_feas} vs harness {best} / {got} / {ok}", case)
+        outs = lean_run(clines)
+        for o, (thr, ncorrect, case) in zip(outs, cmeta):
+            tk = o.split()
+            if tk[:1] != ['ok'] or len(tk) != 4:
+                R.broken('driver:calib_code', f'model driver answered {o[:80]}', case)
+                continue
+            m_thr = parse_ok_floats('ok ' + tk[2])[0]
+            if float(m_thr) != float(thr) or int(tk[3]) != ncorrect:
+                R.broken('correspondence:C16:calib_code',
+                         f"code-level model stores threshold {m_thr!r} ({tk[3]} correct, position {tk[1]}) vs implementation {thr!r} ({ncorrect} correct)", case)
+        R.count('calib_code_traces', len(clines))
         outs = lean_run(vl)
         for o, (valid, case) in zip(outs, vm):
             if (o.strip() == 'ok accepted') != valid:
                 R.broken('correspondence:C16:validate_calib', f'model says {o!r} for {case}', case)
-        R.extra['traces_validated_against_impl'] = len(lines) + len(vl)
+        R.extra['traces_validated_against_impl'] = len(lines) + len(clines) + len(vl)
 
 
 def replay(R, obj):
